@@ -29,12 +29,15 @@ def c14(tier):
     for which in range(5):
         for ka in range(12):
             jobs.append((H('vm', 'HarnessC14Unary'), P('vm'), [[which, ka]], {'timeout_ms': 60000}))
+    for a in range(12):
+        for b in range(12):
+            jobs.append((H('.', 'HarnessC14Kind'), P('.'), None, {'params': {'a': a, 'b': b}, 'label': 'kind %d x %d' % (a, b)}))
     meta = {
-        'explanation': 'every generated helper (equal, less, more, lessOrEqual, moreOrEqual, add, subtract, multiply, divide, modulo) x every ordered pair of the 12 numeric kinds, operand VALUES symbolic (bit-vectors of the Go width / IEEE floats), compared by z3 with the promotion rule written independently in the harness (convert lower rank to higher rank with Go conversion semantics, apply the Go operator at that kind); plus negate, toInt, toInt64, toFloat64, exponent',
+        'explanation': 'every generated helper (equal, less, more, lessOrEqual, moreOrEqual, add, subtract, multiply, divide, modulo) x every ordered pair of the 12 numeric kinds, operand VALUES symbolic (bit-vectors of the Go width / IEEE floats), compared by z3 with the promotion rule written independently in the harness (convert lower rank to higher rank with Go conversion semantics, apply the Go operator at that kind); plus negate, toInt, toInt64, toFloat64, exponent; and (package expr) for every ordered kind pair and operator the dynamic kind of the result of the compiled expression equals the type checker.Check reports',
         'bounds': {'values': 'none (all values of every kind)', 'kinds': '12x12 ordered pairs x 10 operators + unary', 'float->int': 'excluded (implementation-defined out of range)', 'math.Pow': 'uninterpreted function'},
         'outside': ['float to int conversions in toInt/toInt64', 'the value of math.Pow itself'],
         'assumptions': COMMON_ASSUME,
-        'must_reach': ['c14.binary', 'c14.negate', 'c14.toInt', 'c14.toInt64', 'c14.toFloat64', 'c14.exponent'],
+        'must_reach': ['c14.binary', 'c14.negate', 'c14.toInt', 'c14.toInt64', 'c14.toFloat64', 'c14.exponent', 'c14.kind.ran'],
     }
     return jobs, meta
 
